@@ -10,6 +10,7 @@ import os
 import re
 import struct
 import sys
+import unicodedata
 
 # Python Cookbook: Section 13.12
 log = logging.getLogger(__name__)
@@ -1188,8 +1189,13 @@ class Arithmetic(Expr):
         # its spelling (a label "A.real" is not an attribute of "A", "n\u00ba" is not "no")
         def named(match):
             word = match.group(0)
-            if word in env and type(env[word]) == int and not keyword.iskeyword(word) and not word[0].isdigit():
+            if word[0].isdigit() or word[0] == '.' or keyword.iskeyword(word):
+                return word
+            if word in env and type(env[word]) == int:
                 return '({})'.format(env[word])
+            # not in these tables: Python must not find something else under that spelling
+            if word not in env and ('.' in word or unicodedata.normalize('NFKC', word) != word):
+                raise AssemblerError('unknown variable in expr: "{}"'.format(self.expr), line)
             return word
         expr = re.sub(r'''[^\s()\[\]{}+\-*/%&|^~<>=!,:;'"@#]+''', named, expr)
 
